@@ -12,6 +12,7 @@
 (*            tails, branch conditions): density >= 0, CDF in [0,1],       *)
 (*            non-decreasing, 0 and 1 in the far tails, increments equal   *)
 (*            to the integral of the library's own density.                *)
+(*  Gauss2D : PDF_Gauss_2D = PDF_Gauss(x) * PDF_Gauss(y), non-negative.     *)
 (*  The tolerance class (tol) must be the one the family / parameter calls *)
 (*  for: 1e-12 closed forms, 1e-9 incomplete-gamma based (a <= 100), 2e-3  *)
 (*  above, as C06 states for the underlying functions.                     *)
@@ -38,10 +39,12 @@ TGrid == Ev("Grid") /\ LET ev == Log[l] IN Judge(
            /\ ev.fin /\ ev.nonneg /\ ev.range /\ ev.monoq <= 1 /\ ev.incq <= 1 /\ ev.lo0 /\ ev.hi1)
 TEdge == Ev("Edge") /\ Judge(Log[l].ok)
 TQuantile == Ev("Quantile") /\ Judge(Log[l].ok)
+\* two-dimensional normal density = product of the one-dimensional densities (independent coordinates), non-negative
+TGauss2D == Ev("Gauss2D") /\ LET ev == Log[l] IN Judge(ev.q <= 1 /\ ev.nonneg)
 TKDE == Ev("KDE") /\ LET ev == Log[l] IN Judge(ev.nonneg /\ ev.intq <= 1)
 \* far tails (levels down to 1e-11 on either side, counts below 100): the level reached is the requested one to 1e-4 of the tail probability
 TInvPoisTail == Ev("InvPoisTail") /\ LET ev == Log[l] IN Judge(ev.side \in {0, 1} /\ ev.fin /\ ev.q <= 1)
-Next == TBinom \/ TPois \/ TPoisSum \/ TInvPois \/ TInvPoisTail \/ TLik \/ TGrid \/ TEdge \/ TQuantile \/ TKDE
+Next == TBinom \/ TPois \/ TPoisSum \/ TInvPois \/ TInvPoisTail \/ TLik \/ TGrid \/ TEdge \/ TQuantile \/ TGauss2D \/ TKDE
 Spec == Init /\ [][Next]_l
 TraceAccepted == /\ TLCGet("stats").diameter - 1 = Len(Log)
                  /\ PrintT(<<"REJECTED-EVENTS", TLCGet(7)>>)
